@@ -157,6 +157,8 @@ def judge(c, ir, mr):
     # tie: the model the C14 theorems are about reproduces bytes(out) under the same random tape
     m = mr.get("model")
     mb = m["ok"]["bytes"].get("ok") if isinstance(m, dict) and "ok" in m and isinstance(m["ok"].get("bytes"), dict) else None
+    if isinstance(m, dict) and "ok" in m and isinstance(m["ok"].get("bytes"), dict) and "err" in m["ok"]["bytes"]:
+        return None      # the abstract output cannot be encoded (option area > 40 bytes, value out of range): C05's subject, not a hint question
     if mb is None or c05.zero_checksums(mb, ir["ver"]) != c05.zero_checksums(ir["bytes"], ir["ver"]) or m["ok"]["unused_tape"] != 0:
         return {"kind": "correspondence: the impersonation model no longer reproduces bytes(out) under the same random tape",
                 "why": "model %s impl %s" % (str(m)[:200], ir["bytes"][:200]), "no_failing_input": True}
